@@ -138,6 +138,9 @@ type result struct {
 // the same at every site.  It is drawn by the property (propHelpers) and stays 0 elsewhere.
 var callSite int
 
+// earlierStatus is a status some earlier code of the request recorded (SetStatus) before the helper is called; 0 = none.
+var earlierStatus int
+
 var callSiteNames = []string{"route-handler", "OnPanic-hook", "NotFound-handler", "aborting-global-middleware"}
 
 func run(headers map[string]string, accept string, f func(c *rux.Context) error) result {
@@ -146,6 +149,9 @@ func run(headers map[string]string, accept string, f func(c *rux.Context) error)
 	do := func(c *rux.Context) {
 		for k, v := range headers {
 			c.SetHeader(k, v)
+		}
+		if earlierStatus != 0 {
+			c.SetStatus(earlierStatus) // a status recorded earlier in the request: the helper's own status replaces it
 		}
 		res.retErr = f(c)
 		res.nErr = len(c.Errors)
@@ -174,6 +180,15 @@ func run(headers map[string]string, accept string, f func(c *rux.Context) error)
 		defer func() { res.pv = recover() }()
 		r.ServeHTTP(res.rec, req)
 	}()
+	// the header map belongs to the response's owner; an owner that edits the values in place (after copying what the
+	// checks below look at) must not reach any later response
+	live := res.rec.Header()
+	res.rec.HeaderMap = live.Clone() // what the checks look at
+	for k, vs := range live {
+		for i := range vs {
+			vs[i] = "edited-in-place-by-the-owner-of-an-earlier-response(" + k + ")"
+		}
+	}
 	return res
 }
 
@@ -195,7 +210,8 @@ func jsonEqual(body []byte, want any) error {
 func propHelpers(t *rapid.T) {
 	ev.Case()
 	callSite = rapid.SampledFrom([]int{0, 0, 0, 1, 2, 3}).Draw(t, "callSite")
-	defer func() { callSite = 0 }()
+	earlierStatus = rapid.SampledFrom([]int{0, 0, 0, 202, 404, 500}).Draw(t, "earlierStatus")
+	defer func() { callSite, earlierStatus = 0, 0 }()
 	ev.Class("helper-called-from:" + callSiteNames[callSite])
 	status := rapid.OneOf(rapid.SampledFrom([]int{200, 201, 202, 206, 400, 404, 418, 500, 503, 599}), rapid.IntRange(200, 599)).Draw(t, "status")
 	helper := rapid.SampledFrom([]string{"Text", "HTML", "HTMLString", "JSON", "JSONBytes", "JSONP", "XML", "Blob", "Stream", "NoContent", "Redirect", "HTTPError", "JSON-unencodable", "XML-unencodable", "JSONP-unencodable", "ShouldRender", "ShouldRender", "Respond"}).Draw(t, "helper")
